@@ -10,12 +10,13 @@ RMAXM   == [neg |-> FALSE, d |-> <<0,0,0,0,0,0,0,0,0,0,0,0,0,0,1,2>>]           
 RI64MAX == [neg |-> FALSE, d |-> <<7,0,8,5,7,7,4,5,8,6,3,0,2,7,3,3,2,2,9>>]       \* 9223372036854775807
 RU64MAX == [neg |-> FALSE, d |-> <<5,1,6,1,5,5,9,0,7,3,7,0,4,4,7,6,4,4,8,1>>]     \* 18446744073709551615
 RHALFM  == [neg |-> FALSE, d |-> <<0,0,0,0,0,0,0,0,0,0,0,0,0,5,0,1>>]                  \* 1050000000000000
+RREPMAX == FromInt(20000)         \* the longest run of equal summands the harness materialises (long sums)
 RP62    == [neg |-> FALSE, d |-> <<4,0,9,7,8,3,7,2,4,8,1,0,6,8,6,1,1,6,4>>]       \* 4611686018427387904
 
 A == INSTANCE Amounts WITH
         Plus <- Add, Minus <- Sub, Times <- Mul, LeqN <- Leq, Num <- FromInt,
         MAXM <- RMAXM, I64MAX <- RI64MAX, U64MAX <- RU64MAX,
-        HALFM <- RHALFM, QI <- FromInt(4392), QU <- FromInt(8784), P62 <- RP62,
+        HALFM <- RHALFM, QI <- FromInt(4392), QU <- FromInt(8784), P62 <- RP62, REPMAX <- RREPMAX,
         BYTEBASE <- 256, NBYTES <- 8
 
 \* MAX_MONEY = 21_000_000 * COIN, COIN = 1_0000_0000 (value.rs); i64 and u64 are 64-bit two's complement
@@ -29,11 +30,17 @@ ASSUME DecToString(RMAXM) = "2100000000000000"
 ASSUME DecToString(RI64MAX) = "9223372036854775807"
 ASSUME DecToString(A!I64MIN) = "-9223372036854775808"
 ASSUME DecToString(RU64MAX) = "18446744073709551615"
-ASSUME \A t \in {"i64", "u64", "mul", "nz64", "pat", "Z", "B", "oZ", "oB", "seqZ", "seqB"} :
+ASSUME \A t \in {"i64", "u64", "mul", "nz64", "pat", "Z", "B", "oZ", "oB", "seqZ", "seqB", "rep"} :
           \A a \in A!Lat(t) : A!WellTypedArg(t, a)
+\* the lengths of the long sums straddle both machine words: QI (QU) copies of MAX_MONEY still fit i64 (u64),
+\* one more does not; the longest sums pass 2^64 twice
+ASSUME /\ Leq(Mul(RMAXM, FromInt(4392)), RI64MAX) /\ Lt(RI64MAX, Mul(RMAXM, FromInt(4393)))
+       /\ Leq(Mul(RMAXM, FromInt(8784)), RU64MAX) /\ Lt(RU64MAX, Mul(RMAXM, FromInt(8785)))
+       /\ Lt(Add(A!TWO64, A!TWO64), Mul(RMAXM, FromInt(17570)))
+       /\ {FromInt(n) : n \in {4392, 4393, 8784, 8785, 17570, 20000}} \subseteq A!LatRep
 
 N(s) == DecFromString(s)
-ScalarTypes == {"i64", "u64", "mul", "nz64", "pat", "Z", "B"}
+ScalarTypes == {"i64", "u64", "mul", "nz64", "pat", "Z", "B", "rep"}
 OptTypes == {"oZ", "oB"}
 SeqTypes == {"seqZ", "seqB"}
 ==========================================================================================
